@@ -226,6 +226,31 @@ MALFORMED_ADJ = [
 # ----------------------------------------------------------------------------------------------------------------
 # one maze: real calls + oracle
 # ----------------------------------------------------------------------------------------------------------------
+def _scribble(m, rows, cols, cl):
+    """what the views hand out belongs to the caller: every array returned by a view of a maze of this shape (and by the helper
+    functions) is overwritten in place and thrown away BEFORE the maze under observation is queried. A view that hands out its own
+    memo would answer wrongly from here on."""
+    from maze_dataset.token_utils import is_connection
+    def spoil(out):
+        try:
+            if isinstance(out, np.ndarray) and out.size and out.flags.writeable:
+                if out.dtype == bool: out[...] = ~out
+                else: out += 3
+            elif isinstance(out, list) and out:
+                out.reverse(); out.append(out[0])
+        except Exception:
+            pass
+    calls = [lambda: m.get_nodes(), lambda: m.coord_degrees(), lambda: m.as_adj_list(shuffle_d0=False, shuffle_d1=False), lambda: m.as_adj_list(),
+             lambda: m.gen_connected_component_from(np.array([0, 0])), lambda: m.get_coord_neighbors(np.array([0, 0])),
+             lambda: m.get_coord_neighbors(np.array([rows - 1, cols - 1])), lambda: is_connection(np.array([[[0, 0], [0, 1]]]), cl)]
+    if rows == cols:
+        from maze_dataset.utils import lattice_connection_array, lattice_max_degrees
+        calls += [lambda: lattice_connection_array(rows), lambda: lattice_max_degrees(rows)]
+    for f in calls:
+        try: spoil(f())
+        except Exception: pass
+
+
 def _observe(ctx, rows, cols, entries, seed, origin):
     """returns (request for the driver, implementation observations, case). Oracle violations are raised here."""
     from maze_dataset import LatticeMaze, SolvedMaze
@@ -237,6 +262,7 @@ def _observe(ctx, rows, cols, entries, seed, origin):
     cl = np.zeros((2, rows, cols), dtype=np.bool_)
     for d, i, j in entries:
         cl[d, i, j] = True
+    _scribble(LatticeMaze(connection_list=cl.copy()), rows, cols, cl.copy())
     m = LatticeMaze(connection_list=cl.copy())
     orc = Oracle(rows, cols, entries)
     case = dict(rows=rows, cols=cols, edges=[list(e) for e in entries], seed=seed, origin=origin)
